@@ -50,6 +50,7 @@ def make_flow(root, shape, tail, pulls, fault=None):
 
 
 def run_flow(root, shape, tail, fault=None):
+    import gc
     pulls = []
     try:
         results, dp, _ = make_flow(root, shape, tail, pulls, fault).results()
@@ -57,7 +58,12 @@ def run_flow(root, shape, tail, fault=None):
     except core.CaseTimeout:
         raise
     except Exception as e:
-        return ('exc', e, None, len(pulls))
+        res = ('exc', core.exc_sig(e) + ': ' + str(e)[:100], None, len(pulls))
+    # the failed pipeline's suspended generators are finalised when the exception is released and the cyclic GC runs
+    # (or at interpreter exit): whatever they do then belongs to what the failure leaves behind
+    gc.collect()
+    gc.collect()
+    return res
 
 
 def expected_pulls(shape):
@@ -73,7 +79,7 @@ def recover(state, shape, tail, ref, label, d):
     r = run_flow(root, shape, tail)
     shutil.rmtree(root, ignore_errors=True)
     if r[0] == 'exc':
-        return ('recovery-raises', '%s: the next run raises %s: %s' % (label, core.exc_sig(r[1]), str(r[1])[:100])), committed
+        return ('recovery-raises', '%s: the next run raises %s' % (label, r[1])), committed
     if (r[1], r[2]) != (ref[1], ref[2]):
         which = 'picked up an incomplete checkpoint' if r[3] == 0 else 'recomputed but differs'
         return ('recovery-differs', '%s: the next run %s: rows per resource %r, uninterrupted run %r' %
